@@ -1,7 +1,26 @@
-(* C16 — Reported balances are exact and configured limits are enforced
-   Statements only; every proof is `exact <lemma>` into Mint/*.v (model: Mint/Model.v, semantics: Mint/Sem.v). *)
+(* C16 - Reported balances are exact and configured limits are enforced
+   Statements only; every proof is `exact <lemma>` into coq/Mint/*.v.
+
+   Reading guide (definitions in coq/Mint/*.v):
+     world            = store (tables spent/pending/signatures/mint quotes/melt quotes/keysets) + Lightning environment
+                        (invoices, scripted answers, log of pay calls) + the process memory (keysets, active keyset)
+     op               = one request (OSwap, OMint, OMelt, OMeltQuote, OMintQuote, OMintState, OMeltState, OCheck, ORestore,
+                        ORotate, ORestart, OWatcher, OBalance, OInfo) or environment step (ESettle, EScriptPay/Look, ...)
+     op_prog          = the request as a program over storage/Lightning calls, following mint/mint.go call by call
+     run p f w        = run program p from world w; f: which call positions get an injected storage error (no_fault: none)
+     run_n n p f w    = the same, but the process dies after n calls
+     step cfg f w o   = one request run to completion; run_history / reach: a sequential fault-free history from the empty store
+     hrun cfg w h     = a history of items: HNormal o | HFault o f | HCrash o n | HConc ops schedule (interleaving at call granularity)
+     WInv w           = every table has unique keys (Y, B_, quote ids, keyset ids)
+     Good w           = WInv w and no Y is both spent and pending
+     wext w w'        = spent and signature tables of w' extend those of w (nothing removed or altered)
+     same_but_calls   = nothing changed but the call counter
+     settled w h      = the backend reports the own invoice with payment hash h as settled
+
+   total_balance_exact needs redeemed <= issued (unforgeability: every spent proof was issued) and totals below 2^64.
+*)
 From Coq Require Import ZArith List Bool.
-From Verif Require Import Model Sem InvDb InvSwap InvMint InvMelt Corollaries Queries.
+From Verif Require Import Model Sem InvDb InvSwap InvMint InvMelt Corollaries Queries Footprint HRel Global GlobalQuote GlobalValue GlobalErr GlobalQuery GlobalMelt GlobalKeys Cuts.
 Import ListNotations.
 Open Scope Z_scope.
 
@@ -25,6 +44,12 @@ Theorem C16_total_balance_exact : forall w : world,
          same_but_calls w w'.
 Proof. exact @total_balance_exact. Qed.
 Print Assumptions C16_total_balance_exact.
+
+Theorem C16_signatures_are_exactly_what_was_returned : forall (cfg : config) (h : list op) (w : world),
+       Good w ->
+       d_sigs (w_db (fst (run_history cfg w h))) = d_sigs (w_db w) ++ returned_all h (snd (run_history cfg w h)).
+Proof. exact @signatures_are_exactly_what_was_returned. Qed.
+Print Assumptions C16_signatures_are_exactly_what_was_returned.
 
 Theorem C16_mint_limit_enforced : forall (cfg : config) (amount pk newid newhash : Z) (w : world),
        0 < c_max_mint cfg ->
